@@ -69,7 +69,9 @@ namespace Sdc.Mdib
   unfold incParent
   split
   · rfl
-  · simp
+  · split
+    · rfl
+    · simp
 
 theorem foldl_rmCtx_ver (l : List CState) (t : Tables) : (l.foldl (fun t c => rmCtx t c.h) t).ver = t.ver := by
   induction l generalizing t with
@@ -99,10 +101,12 @@ theorem commitDItem_ver (toDel toCreate toUpdate : List Handle) (c : DCommit) (i
       · split <;> simp [this]
       · simp [this]
   · -- delete
-    simp only
     split
-    · split <;> simp [foldl_rmDescrAndStates_ver]
-    · simp [foldl_rmDescrAndStates_ver]
+    · rfl
+    · simp only
+      split
+      · split <;> simp [foldl_rmDescrAndStates_ver]
+      · simp [foldl_rmDescrAndStates_ver]
   · -- update
     simp only
     split <;> simp
@@ -162,7 +166,7 @@ theorem commitD_ver (t : Tables) (tx : DTx) (hne : tx.descr.isEmpty = false) (hc
     (commitD t tx).1.ver = t.ver + 1 := by
   unfold commitD
   simp only [hne, hc, Bool.false_eq_true, if_false, Bool.not_true]
-  have h1 := commitDItems_ver (toDelOf tx) (toCreateOf tx) (toUpdateOf tx) { t := { t with ver := t.ver + 1 }, tx := tx } tx.descr
+  have h1 := commitDItems_ver (deletedHandles t tx) (toCreateOf tx) (toUpdateOf tx) { t := { t with ver := t.ver + 1 }, tx := tx } tx.descr
   split
   · rename_i c e heq; rw [heq] at h1; exact h1
   · rename_i c heq
